@@ -23,7 +23,7 @@ PROPERTIES["C19"] = dict(
         dict(pkg="util/tokenhelper", files=["util_tokenhelper/zz_verif_c19.go"], entry="Harness_C19_K1_int", args=dict(sample_every=7)),
         dict(pkg="util/tokenhelper", files=["util_tokenhelper/zz_verif_c19.go"], entry="Harness_C19_K1_uint", args=dict(sample_every=7)),
         dict(pkg="util/tokenhelper", files=["util_tokenhelper/zz_verif_c19.go"], entry="Harness_C19_K1_string", args=dict(sample_every=7)),
-        dict(pkg="assertion/function/assertiontree", files=["assertiontree/zz_verif_c02.go"], entry="Harness_C19_K2", native=False, args=dict(sample_every=17)),
+        dict(pkg="assertion/function/assertiontree", files=["assertiontree/zz_verif_c02.go", "assertiontree/zz_verif_c02stmt.go"], entry="Harness_C19_K2", native=False, args=dict(sample_every=17)),
     ],
 )
 
@@ -115,6 +115,8 @@ PROPERTIES["C03"] = dict(
              quick=dict(params=dict(TOPO=1, SP=2, NP=1, NP2=2, ONLYBASE=1, KINDS=3)), thorough=dict(params=dict(TOPO=1, SP=2, NP=2, NP2=2, ONLYBASE=1, KINDS=3)), args=dict(sample_every=499)),
         dict(pkg="inference", files=INFER_FILES, entry="Harness_C06", name="_fan",
              quick=dict(params=dict(TOPO=3, SP=2, NP=1, NP0=0, NP4=0, ONLYBASE=1, KINDS=3)), thorough=dict(params=dict(TOPO=3, SP=2, NP=1, NP0=1, NP4=1, ONLYBASE=1, KINDS=3)), args=dict(sample_every=499)),
+        dict(pkg="inference", files=INFER_FILES, entry="Harness_C06_Chain", name="_unexported_helpers",
+             quick=dict(params=dict(L=5)), thorough=dict(params=dict(L=6)), args=dict(sample_every=499)),
     ],
 )
 
@@ -138,14 +140,16 @@ PROPERTIES["C11"] = dict(
 PROPERTIES["C13"] = dict(
     explanation="symx executes Diagnostics(false) and Diagnostics(true) on the same symbolic conflicts (groupConflicts, addSimilarConflict, conflict.String, pathString, node.String from SSA) "
                 "and compares the two reports location by location; counts are parsed from the real messages.",
-    bounds=dict(quick="<=3 conflicts (2 files, 2 nil sources, two conflict styles), symbolic offsets (every sort order)", thorough="<=5 conflicts"),
+    bounds=dict(quick="<=3 conflicts (2 files, 2 nil sources, two conflict styles) and <=4 conflicts in one file (2 nil sources: two groups with absorbed members), symbolic offsets (every sort order)", thorough="<=4 conflicts with all dimensions, <=5 in one file"),
     outside=["the pretty-printing sentence: PrettyPrintErrorMessage is three regexp.ReplaceAllString calls with capture groups; symbolic text through the regexp VM is out of reach "
              "(see DESIGN.md section 4, C13 and section 6 item 4: by inspection it drops the double quotes around positions)",
              "single-assertion conflicts without a producer position"],
     assumptions=COMMON_ASSUMPTIONS,
     runs=[
         dict(pkg="diagnostic", files=["diagnostic/zz_verif_c11.go", "diagnostic/zz_verif_c14.go", "diagnostic/zz_verif_c04k1.go"], entry="Harness_C13",
-             quick=dict(params=dict(N=3)), thorough=dict(params=dict(N=5)), args=dict(sample_every=499)),
+             quick=dict(params=dict(N=3)), thorough=dict(params=dict(N=4)), args=dict(sample_every=499)),
+        dict(pkg="diagnostic", files=["diagnostic/zz_verif_c11.go", "diagnostic/zz_verif_c14.go", "diagnostic/zz_verif_c04k1.go"], entry="Harness_C13", name="_two_groups",
+             quick=dict(params=dict(N=4, FILES=1, STYLES=1)), thorough=dict(params=dict(N=5, FILES=1, STYLES=1)), args=dict(sample_every=499)),
     ],
 )
 
@@ -213,14 +217,14 @@ PROPERTIES["C15"] = dict(
     ],
 )
 
-C02_FILES = ["assertiontree/zz_verif_c02.go"]
+C02_FILES = ["assertiontree/zz_verif_c02.go", "assertiontree/zz_verif_c02stmt.go"]
 C02_EXPL = ("symx executes preprocess.(*Preprocessor).CFG (copyGraph, canonicalizeConditional and the other passes), blocksAndPreprocessingFromCFG and AddNilCheck with its closures from SSA on a CFG whose "
             "entry block ends with a generated guard condition. The condition's shape is a choice; the nil-ness of x and y and the value of the opaque atom are symbolic Booleans, so every claim "
             "about a branch is decided for all valuations by the solver.")
 
 PROPERTIES["C02"] = dict(
     explanation=C02_EXPL,
-    bounds=dict(quick="conditions of nesting depth <=2 over x==nil, x!=nil, nil==y, nil!=y, c, !, (), &&, ||  (and, for A1/A2 only, ==true / !=false / false== / !=true)",
+    bounds=dict(quick="conditions of nesting depth <=2 over x==nil, x!=nil, nil==y, nil!=y, c, !, (), &&, ||  (and, for A1/A2 only, ==true / !=false / false== / !=true); value switches `switch x { ... }` with 1-3 clauses of 1-2 values from {nil, s, t}, optional default, built by the REAL cfg.New, as first statement of a block or not",
                 thorough="nesting depth <=3 (listed spellings), depth <=2 with boolean-literal comparisons"),
     outside=["that a recognised guard discharges the consumer in the assertion tree (AddProduction / backpropagation), loop back edges, switch x {case nil:}, early returns: inside C01's unreachable core",
              "the second sentence of the statement (zero diagnostics for fully guarded programs; precision for single-call-site programs)",
@@ -231,6 +235,8 @@ PROPERTIES["C02"] = dict(
              quick=dict(params=dict(DEPTH=2, BOOL_LITERALS=0)), thorough=dict(params=dict(DEPTH=3, BOOL_LITERALS=0)), args=dict(sample_every=997)),
         dict(pkg="assertion/function/assertiontree", files=C02_FILES, entry="Harness_C02", name="_boollits", native=False,
              quick=dict(params=dict(DEPTH=2, BOOL_LITERALS=1)), thorough=dict(params=dict(DEPTH=2, BOOL_LITERALS=1)), args=dict(sample_every=997)),
+        dict(pkg="assertion/function/assertiontree", files=C02_FILES, entry="Harness_C02_Switch", native=False,
+             quick=dict(params=dict(CLAUSES=3)), thorough=dict(params=dict(CLAUSES=3)), args=dict(sample_every=97)),
     ],
 )
 
@@ -249,15 +255,17 @@ def confirm_c17_templ(vs, outdir):
 PROPERTIES["C17"] = dict(
     explanation=C02_EXPL + " For C17 the harness renders everything reachable from the driver-shared inputs (CFG blocks, their Nodes/Succs backing arrays, the AST) canonically before and after the kernel "
                 "on every explored path and requires equality, plus no aliasing between the result and the input. The templ harness does the same for the function literal's CFG obtained through ctrlflow.",
-    bounds=dict(quick="guard conditions of depth <=2 (13 constructors) in a 3-block CFG; templ component functions whose literal CFG has 1..3 blocks (live or dead) with 0..2 returns each, both package path spellings",
+    bounds=dict(quick="guard conditions of depth <=2 (13 constructors) in a 3-block CFG; function bodies with a value switch (live, or dead after a return together with a range loop) whose CFG comes from the real cfg.New; templ component functions whose literal CFG has 1..3 blocks (live or dead) with 0..2 returns each, both package path spellings",
                 thorough="guard conditions of depth <=3"),
     outside=["every other consumer of shared input (assertion-tree construction, anonymousfunc, structfield, contract inference over shared SSA): whole-analysis code; a source scan found in-place writes to Nodes/Succs/Blocks only in preprocess",
-             "range/switch/type-switch marking on non-empty bodies (collectChildren and mark* run, but on a function without such statements)"],
+             "type-switch marking (markTypeSwitchStatements) on non-empty bodies"],
     assumptions=COMMON_ASSUMPTIONS + ["(*ctrlflow.CFGs).FuncLit and (*types.Package).Path are stubs returning harness values (type-checker / ctrlflow contract)",
                                       "the templ harness has no symbolic scalars: its paths are the executor's exhaustive choice enumeration; the native confirmation is TestVerifC17TemplProbe on the repository's templ test package"],
     runs=[
         dict(pkg="assertion/function/assertiontree", files=C02_FILES, entry="Harness_C02", native=False,
              quick=dict(params=dict(DEPTH=2, BOOL_LITERALS=1)), thorough=dict(params=dict(DEPTH=3, BOOL_LITERALS=0)), args=dict(sample_every=997)),
+        dict(pkg="assertion/function/assertiontree", files=C02_FILES, entry="Harness_C02_Switch", native=False,
+             quick=dict(params=dict(CLAUSES=3)), thorough=dict(params=dict(CLAUSES=3)), args=dict(sample_every=97)),
         dict(pkg="assertion/function/preprocess", files=["preprocess/zz_verif_c17.go"], entry="Harness_C17_Templ", native=False, confirm=confirm_c17_templ, args=dict(sample_every=97)),
     ],
     extra=[],
